@@ -15,6 +15,7 @@ mod c14;
 mod c18;
 mod c19;
 mod c20;
+mod fed;
 mod util;
 
 fn main() {
@@ -49,6 +50,7 @@ fn main() {
         ("record", "c19") => c19::run(rest),
         ("record", "c18") => c18::run(rest),
         ("replay", "c13") => c13::replay(rest),
+        ("replay", "fed") => fed::replay(rest),
         ("record", "c13") => c13::record(rest),
         (m, id) => {
             eprintln!("unknown mode/id {m} {id}");
